@@ -52,6 +52,8 @@ Scalars ==
     \cup {Symbol(T("a")), Symbol(T("a-b")), Symbol(T("lib:ph")), Symbol(T("a.b_c~1"))}
     \cup {XStr(T("Bin"), s) : s \in {<<>>, T("text/plain"), <<34>>, <<92>>, <<10>>, <<128512>>}}
     \cup {XStr(T("X_1a"), T("v"))}
+    \* XStr types spelled like the one-word scalars of the grammar (T F M N R NA NaN INF, C as in Coord): `T("x")` is an XStr
+    \cup {XStr(T(ty), T("x")) : ty \in {"T", "F", "M", "N", "R", "NA", "NaN", "INF", "C", "Z"}}
     \cup {Date(0, 1, 1), Date(2021, 2, 28), Date(2020, 2, 29), Date(9999, 12, 31)}
     \cup {Time(0, 0, 0, 0), Time(23, 59, 59, 0), Time(12, 30, 15, 500000000), Time(1, 2, 3, 123000000),
           Time(1, 2, 3, 123456000), Time(1, 2, 3, 123456789), Time(1, 2, 3, 1)}
